@@ -98,12 +98,13 @@ type Sim struct {
 	abort  bool
 	Reason int
 
-	Now      int64 // virtual nanoseconds since epoch
-	Steps    int64
-	MaxSteps int64
-	Switches int64
-	Preempts int64
-	until    int64 // yield points until next preemption
+	Now       int64 // virtual nanoseconds since epoch
+	Steps     int64
+	MaxSteps  int64
+	Switches  int64
+	Preempts  int64
+	LockWaits int64
+	until     int64 // yield points until next preemption
 
 	locks  [96]lockEnt
 	nlocks int
@@ -499,6 +500,9 @@ func (s *Sim) stop(reason int) {
 //go:norace
 func (s *Sim) block(t *Task) {
 	t.state = tsBlocked
+	if t.wk == wLock || t.wk == wRLock || t.wk == wOnce {
+		s.LockWaits++
+	}
 	s.ev(EvBlock, int64(t.ID), int64(t.wk))
 	for {
 		next := s.pick(-1)
